@@ -637,9 +637,11 @@ def p_mp_createClass(p):
                     continue  # Try again to create the class
 
                 if errcode == CIM_ERR_INVALID_SUPERCLASS:
-                    assert not fixedSuper  # Should not happen if we fixed it
-                    moffile = p.parser.mofcomp.find_mof(cc.superclass)
+                    moffile = None if fixedSuper else \
+                        p.parser.mofcomp.find_mof(cc.superclass)
                     if not moffile:
+                        # Not found, or the file found and compiled did not
+                        # provide the superclass
                         raise MOFDependencyError(
                             msg=_format(
                                 "Cannot compile class {0} because its "
@@ -1844,8 +1846,27 @@ def p_instanceDeclaration(p):
                         cname),
                     parser_token=p)
             p.parser.mofcomp.compile_file(file_, ns)
-            cc = p.parser.handle.GetClass(cname, namespace=ns, LocalOnly=False,
-                                          IncludeQualifiers=True)
+            try:
+                cc = p.parser.handle.GetClass(cname, namespace=ns,
+                                              LocalOnly=False,
+                                              IncludeQualifiers=True)
+            except CIMError as ce2:
+                if ce2.status_code != CIM_ERR_NOT_FOUND:
+                    raise MOFRepositoryError(
+                        msg=_format(
+                            "Cannot compile instance of {0!A} because the CIM "
+                            "repository returned an error for GetClass",
+                            cname),
+                        parser_token=p,
+                        cim_error=ce2)
+                raise MOFDependencyError(
+                    msg=_format(
+                        "Cannot compile instance of {0!A} because its class "
+                        "does not exist in the CIM repository and the MOF "
+                        "file {1!A} found for it on the search path does not "
+                        "declare it",
+                        cname, file_),
+                    parser_token=p)
         else:
             raise MOFRepositoryError(
                 msg=_format(
